@@ -307,8 +307,18 @@ const preludeCore = `(declare-sort Str 0)
 (declare-fun flt_of_s ((_ BitVec 64)) Flt)
 (declare-fun flt_to_bv (Flt) (_ BitVec 64))
 (declare-datatypes ((OptBytes 0)) (((None) (Some (some_val Bytes)))))
-(define-sort Key () Bytes)
+(declare-datatypes ((KeyT 0)) (((K0 (k0c (_ BitVec 160))) (K1 (k1c (_ BitVec 160)) (k1a Bytes)) (K2 (k2c (_ BitVec 160)) (k2a Bytes) (k2b Bytes)) (K3 (k3c (_ BitVec 160)) (k3a Bytes) (k3b Bytes) (k3d Bytes)) (K4 (k4c (_ BitVec 160)) (k4a Bytes) (k4b Bytes) (k4d Bytes) (k4e Bytes)) (K5 (k5c (_ BitVec 160)) (k5a Bytes) (k5b Bytes) (k5d Bytes) (k5e Bytes) (k5f Bytes)) (KRaw (kraw Bytes)))))
+(declare-fun keyOf (Bytes) KeyT)
+(declare-fun u64le ((_ BitVec 64)) Bytes)
+(declare-fun u32le ((_ BitVec 32)) Bytes)
+(declare-fun u64le_inv (Bytes) (_ BitVec 64))
+(declare-fun u32le_inv (Bytes) (_ BitVec 32))
 `
+
+// conditional axioms: included only when the query mentions the function (keeps QF queries QF)
+const axU64 = "(assert (forall ((x (_ BitVec 64))) (! (= (u64le_inv (u64le x)) x) :pattern ((u64le x)))))\n(assert (forall ((x (_ BitVec 64))) (! (= (blen (u64le x)) #x0000000000000008) :pattern ((u64le x)))))\n"
+const axU32 = "(assert (forall ((x (_ BitVec 32))) (! (= (u32le_inv (u32le x)) x) :pattern ((u32le x)))))\n(assert (forall ((x (_ BitVec 32))) (! (= (blen (u32le x)) #x0000000000000004) :pattern ((u32le x)))))\n"
+
 
 func (c *Ctx) buildQuery(o *Obligation, withModel bool) string {
 	var sb strings.Builder
@@ -331,6 +341,14 @@ func (c *Ctx) buildQuery(o *Obligation, withModel bool) string {
 			names = append(names, n)
 		}
 		fmt.Fprintf(&sb, "(assert (distinct %s))\n", strings.Join(names, " "))
+		if strings.Contains(body, "bytes_of_str") {
+			// different string literals have different byte contents
+			var bs []string
+			for _, n := range names {
+				bs = append(bs, "(bytes_of_str "+n+")")
+			}
+			fmt.Fprintf(&sb, "(assert (distinct %s))\n", strings.Join(bs, " "))
+		}
 	}
 	sb.WriteString("(assert (= (str_len str_empty) #x0000000000000000))\n")
 	sb.WriteString("(assert (= (blen bytes_empty) #x0000000000000000))\n")
